@@ -223,6 +223,7 @@ type committedReader struct {
 func (r *committedReader) Read(ctx context.Context, p []byte) (n int, err error) {
 	r.mu.Lock()
 	defer r.mu.Unlock()
+	verifGate("reader.read_start")
 	segments := r.cl.Segments()
 
 	// If seg is nil then the reader offset exceeded the HW, i.e. the log is
@@ -230,6 +231,7 @@ func (r *committedReader) Read(ctx context.Context, p []byte) (n int, err error)
 	// for data.
 	if r.seg == nil {
 		offset := r.hw + 1 // We want to read the next committed message.
+		verifGate("reader.before_load_hw")
 		hw := r.cl.HighWatermark()
 		for hw == r.hw {
 			// The HW has not changed, so wait for it to update.
@@ -238,9 +240,11 @@ func (r *committedReader) Read(ctx context.Context, p []byte) (n int, err error)
 				return
 			}
 			// Sync the HW.
+			verifGate("reader.after_wait_hw")
 			hw = r.cl.HighWatermark()
 		}
 		r.hw = hw
+		verifGate("reader.before_resync")
 		segments = r.cl.Segments()
 		hwIdx, hwPos, err := getHWPos(segments, r.hw)
 		if err != nil {
@@ -300,6 +304,7 @@ LOOP:
 		}
 
 		// We hit the HW, so sync the latest.
+		verifGate("reader.before_load_hw")
 		hw := r.cl.HighWatermark()
 		for hw == r.hw {
 			// The HW has not changed, so wait for it to update.
@@ -308,9 +313,11 @@ LOOP:
 				break LOOP
 			}
 			// Sync the HW.
+			verifGate("reader.after_wait_hw")
 			hw = r.cl.HighWatermark()
 		}
 		r.hw = hw
+		verifGate("reader.before_resync")
 		segments = r.cl.Segments()
 		hwIdx, hwPos, err := getHWPos(segments, r.hw)
 		if err != nil {
